@@ -144,7 +144,19 @@ func c19BFS(c *core.Ctx, r *core.Result, cfgName string, forks []c19Fork, maxH u
 		var next []*c19State
 		for _, st := range frontier {
 			for _, v := range versions {
-				for blocks := uint32(0); blocks <= 2; blocks++ {
+				for bi := uint32(0); bi <= 5; bi++ {
+					// bi 3..5: the same session with 1..2 blocks started with the operator's override from the outset (no regular start-up
+					// of this build ever touches the database): only where the model says a regular start-up would be refused
+					blocks, direct := bi, false
+					if bi >= 3 {
+						blocks, direct = bi-2, true
+						if blocks > 2 || v == c19Legacy {
+							continue
+						}
+						if want, _ := c19Expect(st, v, forks); !want {
+							continue
+						}
+					}
 					if st.top+blocks > cb+maxH {
 						continue
 					}
@@ -153,6 +165,9 @@ func c19BFS(c *core.Ctx, r *core.Result, cfgName string, forks []c19Fork, maxH u
 					}
 					n++
 					hist := fmt.Sprintf("%s(%s,%d)", st.hist, c19V(v), blocks)
+					if direct {
+						hist += "!forced-directly"
+					}
 					key := cfgName + "/" + hist
 					if c.Only != "" && !strings.HasPrefix(c.Only, key) && !strings.HasPrefix(key, c.Only) {
 						continue
@@ -175,8 +190,16 @@ func c19BFS(c *core.Ctx, r *core.Result, cfgName string, forks []c19Fork, maxH u
 						era = c19Era(3, nil) // any tracked build syncs the blocks; its traces are removed afterwards
 					}
 					era.Apply()
+					drive.DisableHardForkCheck = direct
 					d, err := drive.Open(dir+"/db", fake.NewNode(chain), nil, false)
-					if v != c19Legacy {
+					drive.DisableHardForkCheck = false
+					if direct {
+						if err != nil {
+							os.RemoveAll(dir)
+							continue
+						}
+						r.Count("forced-sessions-without-a-regular-start", 1)
+					} else if v != c19Legacy {
 						// a real start-up: compare with the model
 						r.Eval()
 						if st.top > cb {
